@@ -19,7 +19,8 @@ THEOREMS = ['Fsic.C11.' + n for n in [
     'class_invisible_to_instance_history', 'ops_local', 'trace_t_local', 'interleaved_disjoint',
     'interleaved_independent', 'interleaved_independent_ops', 'copy_resync_independent',
     'assignFrom_inplace_copies_values', 'failed_copy_is_identity', 'deepcopy_uncopyable', 'worldOK_after_copy',
-    'successive_copies_disjoint']]
+    'successive_copies_disjoint', 'fresh_check_is_not_endogenous', 'copy_entry_aliasing_preserved',
+    'copy_entries_separate_linker', 'copy_succeeds', 'ranked_acyclic']]
 RULE = ('programs over real fsic objects: a class (VectorContainer; parser-built / hand-written / default-inheriting '
         'BaseModel subclasses; BaseLinker subclasses with two nested submodels; with and without AliasMixin / '
         'TracerMixin, TRACE_VARIABLES None or a class-level list), two sibling instances over range / list spans, a '
@@ -41,8 +42,12 @@ RULE = ('programs over real fsic objects: a class (VectorContainer; parser-built
         'rebinding) plus API-level mutations (values, add_variable, add_attribute, lags, solve, trace), each followed by '
         'a comparison of the full observable state of the other side; observational equality of a copy is also checked '
         'as BEHAVIOUR (the same answers to every read through every name / alias / undefined name, and the same state '
-        'after the same writes through every name), plainly and after names were used and the instance aliases then '
-        'edited; the same twin runs again AFTER re-synchronising the two sides '
+        'after the same writes through every name, `values` / `size` / `nbytes` incl. dtype), the INTERNAL sharing '
+        'structure of original and copy must be the same (partition of paths by object identity), and the same '
+        'in-place mutation of every mutable object by path on BOTH sides (list append / delete, dict set / delete, '
+        'array cell write) followed by the same solve must leave equal states; instances are constructed with every '
+        'dtype (float, int, bool, float32, str) and get variables of other dtypes, cells 2**53+1; plainly and after '
+        'names were used and the instance aliases then edited; the same twin runs again AFTER re-synchronising the two sides '
         '(every variable assigned as a whole from the other side, either direction, 9 spellings; then element / '
         'period / slice assignment, solve, solve_t, generic array writes); pairs = (original, copy) for each route, '
         '(instance, sibling), (instance, class), both directions; plus sibling pairs / instance-vs-class for EVERY '
@@ -159,9 +164,11 @@ def gen_case(rng):
     else:
         base_names = []
 
+    dtype = rng.choice(hc.DTYPE_POOL)   # the dtype the instances of this program are constructed with
+
     def new_inst(r, cname):
         sp = new_span()
-        prog.append({'c': 'new', 'r': r, 'cls': cname, 'span': sp})
+        prog.append({'c': 'new', 'r': r, 'cls': cname, 'span': sp, 'dtype': dtype})
         spec = classes[cname]
         sh[r] = {'cls': cname, 'kind': spec['kind'], 'vars': list(base_names) if spec['kind'] == 'model' else [],
                  'lists': [],
@@ -174,6 +181,8 @@ def gen_case(rng):
         if spec.get('alias'):
             s['lists'].append(['preferred_names'])
             s['akeys'] = list(spec.get('aliases') or {})
+        s['vdtype'] = {v: dtype for v in s['vars']}
+        s['dtype0'] = dtype
 
     new_inst('a', main)
     new_inst('b', main)
@@ -202,7 +211,7 @@ def gen_case(rng):
             classes['L']['default_args'] = True
         else:
             prog.append({'c': 'dict', 'r': 'd', 'entries': [['A', 'a'], ['B', 'b']]})
-            prog.append({'c': 'new', 'r': 'l', 'cls': 'L', 'span': {'range': n}, 'sub': 'd'})
+            prog.append({'c': 'new', 'r': 'l', 'cls': 'L', 'span': {'range': n}, 'sub': 'd', 'dtype': dtype})
             lnames = ['T', 'W'] if classes['L']['style'] == 'explicit' else []
             sh['l'] = {'cls': 'L', 'kind': 'linker', 'vars': lnames, 'lists': llists,
                        'traced': {}, 'span_list': False, 'attrs': 0, 'subs': {'A': 'a', 'B': 'b'}}
@@ -244,12 +253,17 @@ def gen_case(rng):
                 choices += ['assignValues']
         o = rng.choice(choices)
         if o == 'assignFrom':
-            q = rng.choice(others)
+            # only between variables of one dtype (an int variable cannot take the strings of a str variable)
+            pairs_ = [(x_, q_, y_) for q_ in others for x_ in s['vars'] for y_ in sh[q_]['vars']
+                      if s.get('vdtype', {}).get(x_, 'float') == sh[q_].get('vdtype', {}).get(y_, 'float')]
+            if not pairs_:
+                return {'o': 'append', 'f': rng.choice(s['lists']), 's': fresh_name('e')}
+            x_, q, y_ = rng.choice(pairs_)
             via = rng.choice(sorted(hc.ASSIGN_INPLACE.keys() - {'values'}))
-            return {'o': 'assignFrom', 'x': rng.choice(s['vars']), 'from': q, 'fx': rng.choice(sh[q]['vars']),
-                    'via': via, 'inplace': hc.ASSIGN_INPLACE[via]}
+            return {'o': 'assignFrom', 'x': x_, 'from': q, 'fx': y_, 'via': via, 'inplace': hc.ASSIGN_INPLACE[via]}
         if o == 'assignValues':
-            same = [q for q in others if len(sh[q]['vars']) == len(s['vars'])]
+            allf = lambda t: all(t.get('vdtype', {}).get(v_, 'float') == 'float' for v_ in t['vars'])   # noqa: E731
+            same = [q for q in others if len(sh[q]['vars']) == len(s['vars']) and allf(s) and allf(sh[q])]
             if not same:
                 return {'o': 'setCell', 'x': rng.choice(s['vars']), 'i': rng.randrange(max(nn_, 1)), 'v': rng.randrange(1, 9)}
             q = rng.choice(same)
@@ -288,7 +302,8 @@ def gen_case(rng):
         if o == 'setAt':
             return {'o': 'setAt', 'f': rng.choice(s['arrays']), 'k': '0', 'v': rng.randrange(1, 9)}
         if o == 'setCell':
-            return {'o': 'setCell', 'x': rng.choice(s['vars']), 'i': rng.randrange(max(nn_, 1)), 'v': rng.randrange(1, 9)}
+            return {'o': 'setCell', 'x': rng.choice(s['vars']), 'i': rng.randrange(max(nn_, 1)),
+                    'v': rng.choice([rng.randrange(1, 9), 2 ** 53 + 1, 7])}   # 2**53+1 is not a float64
         if o == 'rebind':
             return {'o': 'rebind', 'x': rng.choice(s['vars']), 'n': nn_}
         if o == 'addVariable':
@@ -307,7 +322,11 @@ def gen_case(rng):
                 if cand not in taken and not cand.startswith('__'):
                     x = cand
             s['vars'].append(x)
-            return {'o': 'addVariable', 'x': x, 'n': nn_, 'model': s['kind'] != 'container'}
+            op_ = {'o': 'addVariable', 'x': x, 'n': nn_, 'model': s['kind'] != 'container'}
+            if rng.random() < 0.3:
+                op_['dtype'] = rng.choice(hc.DTYPE_POOL[3:])
+            s.setdefault('vdtype', {})[x] = op_.get('dtype', 'float' if s['kind'] == 'container' else s.get('dtype0', 'float'))
+            return op_
         if o == 'addAttrList':
             x = fresh_name('lst')
             s['lists'].append([x])
@@ -682,6 +701,18 @@ def behaviour_equal(rep, case, what, a, b, history=None):
         pairs += [(a.submodels[k], b.submodels[k], f'.submodels[{k}]') for k in a.submodels if k in b.submodels]
     for x, y, where in pairs:
         names = name_pool(x)
+        for attr in ('values', 'size', 'nbytes'):   # `values`: dtype and bytes of the packed array
+            try:
+                va = ('ok', canon_value(getattr(x, attr)))
+            except Exception as e:   # noqa: BLE001
+                va = ('raise', type(e).__name__)
+            try:
+                vb = ('ok', canon_value(getattr(y, attr)))
+            except Exception as e:   # noqa: BLE001
+                vb = ('raise', type(e).__name__)
+            if va != vb:
+                violate(rep, 'copy-behaves-differently:' + attr, f'{what}{where}: `{attr}` of original and copy differ '
+                        f'(dtype / contents / exception)', dict(case, behaviour=[what, history]))
         ra, rb = probe_reads(x, names), probe_reads(y, names)
         n += len(ra)
         if ra != rb:
@@ -695,6 +726,75 @@ def behaviour_equal(rep, case, what, a, b, history=None):
             d = [(p, q) for p, q in zip(wa, wb) if p != q][:4]
             violate(rep, 'copy-behaves-differently:after-writes', f'{what}{where}: after the same writes through every '
                     f'name original and copy differ in {fields} {d}', dict(case, behaviour=[what, history]))
+    return n
+
+
+def internal_aliases(x):
+    """The internal sharing structure of one object: groups of (relative) paths that lead to the same mutable object."""
+    ps = []
+    hc.walk('', x, ps, is_root=True)
+    groups = {}
+    for p_, o in ps:
+        groups.setdefault(hc.identity(o), []).append(p_)
+    return sorted(sorted(g) for g in groups.values() if len(g) > 1)
+
+
+def mirror_mutations(rep, case, what, a, b):
+    """The same in-place mutation of every mutable object, by path, on BOTH sides (lists: append / delete; dicts:
+    set / delete; arrays: cell write), the full state compared after each; finally the same solve on both."""
+    ps = []
+    hc.walk('', a, ps, is_root=True)
+    n = 0
+
+    def steps_for(o):
+        if isinstance(o, list):
+            return [lambda t: t.append('__mirror__'), lambda t: t.__delitem__(0)]
+        if isinstance(o, dict) and not isinstance(o, type):
+            return [lambda t: t.__setitem__('__mirror__', 'v'), lambda t: t.__delitem__('__mirror__')]
+        if isinstance(o, np.ndarray) and o.dtype != object and o.size:
+            def write(t):
+                flat = t.reshape(-1)
+                flat[0] = flat[-1] if flat[0] != flat[-1] else (not flat[0] if t.dtype.kind == 'b' else
+                                                               'Z' if t.dtype.kind in 'US' else flat[0] + 1)
+            return [write]
+        return []
+    for path, obj in ps:
+        comps = [c for c in path.split('/') if c]
+        if not comps:
+            continue
+        try:
+            oa, ob = hc.navigate(a, comps), hc.navigate(b, comps)
+        except Exception:   # noqa: BLE001
+            continue
+        if oa is not obj or type(oa) is not type(ob):
+            continue
+        for step in steps_for(oa):
+            try:
+                step(oa)
+                step(ob)
+            except Exception:   # noqa: BLE001
+                continue
+            n += 1
+            sa, sb = hc.observe(a), hc.observe(b)
+            if sa != sb:
+                fields = sorted({top_field(p_) for p_ in hc.diff_paths(sa, sb)})
+                violate(rep, 'copy-diverges-under-same-mutation:' + top_field(path),
+                        f'{what}: the same in-place mutation at {path} on original and copy leaves them different in '
+                        f'{fields}', dict(case, behaviour=[what, 'mirror']))
+                return n
+    if isinstance(a, ModelInterface) and hasattr(a, 'solve'):
+        outs = []
+        for x in (a, b):
+            with warnings.catch_warnings():
+                warnings.simplefilter('ignore')
+                try:
+                    outs.append(('ok', repr(x.solve(max_iter=4, offset=-1, failures='ignore', errors='ignore'))))
+                except Exception as e:   # noqa: BLE001
+                    outs.append(('raise', type(e).__name__))
+        n += 1
+        if outs[0] != outs[1] or hc.observe(a) != hc.observe(b):
+            violate(rep, 'copy-diverges-under-same-mutation:solve', f'{what}: the same solve() after the same mutations '
+                    f'gives {outs[0][0]} / {outs[1][0]} and different states', dict(case, behaviour=[what, 'mirror']))
     return n
 
 
@@ -731,14 +831,19 @@ def dict_keys_of(x):
     return out
 
 
-def failed_copy_oracle(rep, case, world, src):
+def failed_copy_oracle(rep, case, world, src, full=True):
     """A copy that raises must leave no trace: an uncopyable attribute is added (directly, inside a list, inside a
     tuple; on a linker also in a submodel), every route must raise and the original stay exactly as it was
     (`__dict__` keys included); after the attribute is replaced every route must again give new, equal, independent
     objects — two successive copies distinct and sharing nothing."""
     n = 0
-    for what in UNCOPYABLE:
-        for shape in ('direct', 'in-list', 'in-tuple', 'in-submodel'):
+    import zlib
+    pick = zlib.crc32(json.dumps(case['prog'], sort_keys=True).encode())
+    combos = [(w_, s_) for w_ in UNCOPYABLE for s_ in ('direct', 'in-list', 'in-tuple', 'in-submodel')]
+    if not full:   # a rotating selection per case; replay (`forms='all'`) runs all of them
+        combos = [combos[(pick + j) % len(combos)] for j in (0, 5, 10)]
+    for what, shape in combos:
+        if True:
             w = world()
             orig = w.roots[src]
             holder = orig
@@ -916,6 +1021,9 @@ def oracle(rep, case, prep=None, forms=None):
     try:
         if case.get('kind') == 'ctor-defaults':
             return oracle_ctor(rep, case, prep)
+        if case.get('kind') == 'internal-alias-probe':
+            internal_alias_probe(rep)
+            return 1
         return oracle_(rep, case, prep, forms)
     except Exception as e:   # noqa: BLE001
         # the same program ran once already: failing on a plain re-run means state survived outside the objects
@@ -926,6 +1034,7 @@ def oracle(rep, case, prep=None, forms=None):
 
 def oracle_(rep, case, prep=None, forms=None):
     evaluations = 0
+    forms_in = forms
     forms = forms_for(case, forms)
     import zlib
     resync_route = sorted(hc.COPY_ROUTES)[zlib.crc32(json.dumps(case['prog'], sort_keys=True).encode()) % 3]
@@ -953,8 +1062,15 @@ def oracle_(rep, case, prep=None, forms=None):
                 fields = sorted({top_field(p) for p in hc.diff_paths(a, b)})
                 violate(rep, 'copy-not-equal:' + ','.join(fields), f'{route}: copy differs from original in {fields}',
                             dict(case, pair=['copy', src, route]))
+            ia, ib = internal_aliases(orig), internal_aliases(cp)
+            if ia != ib:
+                violate(rep, 'copy-internal-sharing-differs', f'{route}({src}): the internal sharing structure differs: '
+                        f'original {[g for g in ia if g not in ib][:3]}, copy {[g for g in ib if g not in ia][:3]}',
+                        dict(case, behaviour=[f'{route}({src})', 'structure']))
             o2, c2 = rebuild()
             evaluations += behaviour_equal(rep, case, f'{route}({src})', o2, c2)
+            o4, c4 = rebuild()
+            evaluations += mirror_mutations(rep, case, f'{route}({src})', o4, c4)
             w3 = world()
             o3 = w3.roots[src]
             targets = [o3] + (list(o3.submodels.values()) if isinstance(o3, BaseLinker) else [])
@@ -972,7 +1088,7 @@ def oracle_(rep, case, prep=None, forms=None):
                                            lambda src=src, route=route: rebuild(src, route, True), forms)
             rep.dist['oracle:copy-pairs'] += 1
     for src in src_candidates:
-        evaluations += failed_copy_oracle(rep, case, world, src)
+        evaluations += failed_copy_oracle(rep, case, world, src, full=(forms_in == 'all'))
     # siblings and class
     if 'a' in case['roots'] and 'b' in case['roots']:
         def sib(flip=False):
@@ -1062,7 +1178,7 @@ def first_difference(model, real, cross=False):
 
 def run(ctx, rep):
     n_prog = (400 if ctx.tier == 'quick' else 5000) * ctx.scale
-    n_oracle = (55 if ctx.tier == 'quick' else 1200) * ctx.scale
+    n_oracle = (45 if ctx.tier == 'quick' else 1000) * ctx.scale
     rng = ctx.sub_rng('programs')
     batch = []
     for i in range(n_prog):
@@ -1095,6 +1211,7 @@ def run(ctx, rep):
                     if inner['o'] == 'assignValues':
                         rep.dist['assign-from-other:values'] += 1
                     if inner['o'] == 'addVariable':
+                        rep.dist['variable-dtype:' + inner.get('dtype', 'default')] += 1
                         nm_ = inner['x']
                         rep.dist['variable-name:' + ('underscore-twin' if nm_.startswith('_') else 'plain'
                                                      if nm_.startswith('V') and nm_[1:].isdigit() else 'member-like')] += 1
@@ -1104,6 +1221,8 @@ def run(ctx, rep):
                         rep.dist['instance-aliases-edit:' + inner['edit']] += 1
                     if inner['o'] == 'buildAttr':
                         rep.dist['attribute-shape:' + inner['shape']] += 1
+                if cmd['c'] == 'new' and cmd.get('dtype'):
+                    rep.dist['constructed-with-dtype:' + cmd['dtype']] += 1
                 if cmd['c'] == 'copyfail':
                     rep.dist['copy-that-raises:' + cmd['route']] += 1
                 if cmd['c'] == 'subadd':
@@ -1124,6 +1243,9 @@ def run(ctx, rep):
     rep.notes.append(f'{n_prog} programs (T), twin oracle on the first {min(n_prog, n_oracle)} of them + fixed scenarios')
 
 
+FIXED_COUNTER = [0]
+
+
 def run_fixed(ctx, rep, case, batch):
     prep = Prepared(case)
     try:
@@ -1134,10 +1256,39 @@ def run_fixed(ctx, rep, case, batch):
                          f'{type(e).__name__}: {e}')
         return
     batch.append((case, full, real))
-    rep.evaluations += oracle(rep, case, prep, forms='all')
+    FIXED_COUNTER[0] += 1
+    k = FIXED_COUNTER[0]
+    # every scenario runs three of the nine resync spellings and three of the twelve failing-copy combinations; over the
+    # 34 scenarios every spelling / combination is used several times on every kind of class
+    rep.evaluations += oracle(rep, case, prep, forms=[RESYNC_FORMS[(k + j) % len(RESYNC_FORMS)] for j in (0, 3, 6)])
+
+
+def internal_alias_probe(rep):
+    """One object stored under two attributes by the user: Python's deepcopy keeps such an alias, fsic's copy()
+    (one deepcopy per `__dict__` entry) cuts it, so original and copy diverge under the same later operation."""
+    import copy as _copy
+    for kind in ('container', 'model'):
+        case = {'kind': 'internal-alias-probe', 'classes': {'M': {'kind': kind, 'style': 'container' if kind == 'container'
+                                                                 else 'parser', 'script': 0, 'alias': False,
+                                                                 'tracer': False}}, 'prog': [], 'roots': [],
+                'ncopies': 0}
+        cls = build_class(case['classes']['M'], 'M')
+        for route in sorted(hc.COPY_ROUTES):
+            m = cls(range(3))
+            shared = ['u']
+            m.add_attribute('p', shared)
+            m.add_attribute('q', shared)
+            c = hc.COPY_ROUTES[route](m)
+            rep.evaluations += 1
+            if internal_aliases(m) != internal_aliases(c):
+                violate(rep, 'copy-cuts-internal-alias', f'{route}: m.p is m.q (one list stored under two attributes) but '
+                        f'copy.p is not copy.q: appending to p changes q on the original only', dict(case, route=route))
+    rep.dist['probe:internal-alias-made-by-the-user'] += 1
 
 
 def fixed_scenarios(ctx, rep):
+    with pristine_globals():
+        internal_alias_probe(rep)
     batch = []
     fixed_scenarios_(ctx, rep, batch)
     if not ctx.oracle_only and batch:
